@@ -619,5 +619,39 @@ pub fn run(ctx: &Ctx) -> Rec {
   rec.merge(par_run(ctx, "shape", ctx.n(2400, 100_000), |rec, i, rng| shape(rec, ctx, i, rng, &global)));
   rec.merge(par_run(ctx, "large-threshold", ctx.n(6, 55), |rec, i, rng| large_threshold(rec, ctx, i, rng)));
   rec.note("global_coefficient_set", json!(global.lock().unwrap().len()));
+  // the coefficients are draws from a random source: over the thousands seen in a run
+  // every one of the low 128 bit positions must have been observed both set and clear
+  // (chance of a false report: 256 * 2^-n for n coefficients; asserted for n >= 512)
+  {
+    let g = global.lock().unwrap();
+    if g.len() >= 512 {
+      // looked at in two bijective images of the field: the value itself and value * 2^192 mod p
+      // (uniform draws are uniform in both; a generator that starves some machine words is not)
+      let pp = bf::p();
+      let r192 = BigUint::one() << 192;
+      for domain in ["value", "value * 2^192 mod p"] {
+        let mut or = [0u8; 16];
+        let mut and = [0xffu8; 16];
+        for c in g.keys() {
+          let img: Vec<u8> = if domain == "value" { c.clone() } else { { let v: BigUint = BigUint::from_bytes_le(c) * &r192 % &pp; v.to_bytes_le() } };
+          for i in 0..16 {
+            let b = img.get(i).copied().unwrap_or(0);
+            or[i] |= b;
+            and[i] &= b;
+          }
+        }
+        rec.ev("coefficient_bit_balance_checked");
+        let stuck: Vec<usize> = (0..128).filter(|&i| (or[i / 8] >> (i % 8)) & 1 == 0 || (and[i / 8] >> (i % 8)) & 1 == 1).collect();
+        if !stuck.is_empty() {
+          let sample: Vec<String> = g.keys().take(8).map(|c| hex(c)).collect();
+          rec.violation(
+            "coefficient-bits-stuck",
+            format!("{} of the low 128 bit positions of ({}) have the same value in all {} non-constant coefficients seen in this run: the coefficients are not uniform draws", stuck.len(), domain, g.len()),
+            json!({"domain": domain, "stuck_bit_positions": stuck, "coefficients_le_hex_sample": sample, "coefficients_seen": g.len()}),
+          );
+        }
+      }
+    }
+  }
   rec
 }
